@@ -146,3 +146,22 @@ Example ex_identity_found :
   /\ forallb (fun p => 0 <=? m_hc (snd p)) (gnodes ex_P) = true
   /\ (lenN (monos_on (tr_host ex_S) (tr_pat ex_P) (node_ids (tr_host ex_S)) (node_ids (tr_pat ex_P))) <= 100)%N.
 Proof. vm_compute. repeat split; try reflexivity. intros E; discriminate E. Qed.
+
+(** non-vacuity of C04_pruned_results: the symmetric rule of ethane dehydrogenation (sG / sH above), raw = the two matches
+    in the order that lists the swapped one first; faithful codes; the pruning keeps the swapped match only, and
+    its_list on it regenerates the reaction *)
+From SK Require Import model.C11_Model proof.C04_Prune.
+Definition s_cn (a : inode) : N := (a_el (iG a) + 100 * Z.to_N (a_hc (iG a)) + 10000 * Z.to_N (a_hc (iH a)))%N.
+Definition s_ce (x : iedge) : N := (Z.to_N (C03_Model.eG x) + 100 * Z.to_N (C03_Model.eH x))%N.
+Definition s_raw : list C03_Model.mapping := [[(1%N, 2%N); (2%N, 1%N)]; [(1%N, 1%N); (2%N, 2%N)]].
+Example s_faithful : faithful s_cn s_ce (template true false sG sH).
+Proof.
+  split.
+  - intros n a n' b I I'. vm_compute in I, I'. destruct I as [I|[I|[]]], I' as [I'|[I'|[]]]; inversion I; inversion I'; subst; intros _; split; reflexivity.
+  - intros u v x u' v' z I I'. vm_compute in I, I'. destruct I as [I|[]], I' as [I'|[]]. inversion I; inversion I'; subst. reflexivity.
+Qed.
+Example s_pruned :
+  C11_Model.prune (fun m : C03_Model.mapping => m) (tr_rule s_cn s_ce (template true false sG sH)) s_raw = [[(1%N, 2%N); (2%N, 1%N)]] /\
+  existsb (fun f => match f with Some T => regen_exact T sG sH | None => false end)
+          (its_list true false sG sH (C11_Model.prune (fun m : C03_Model.mapping => m) (tr_rule s_cn s_ce (template true false sG sH)) s_raw)) = true.
+Proof. vm_compute. split; reflexivity. Qed.
